@@ -33,8 +33,44 @@ PARTIAL = [
     "captured squared norms are fed to the model",
     "IEEE rounding of the truncated-power construction is not modelled: tolerance 64·eps·(1+p·max|domain|/h)·max(1,Σ|terms|)",
 ]
+TRUSTED_EXTRA = [
+    "harness/c18_translate.py: syntactic map of the closed formulas of FDApy/misc/basis.py (_basis_wiener, _basis_fourier, "
+    "_basis_legendre loop ranges / row indices / right-hand sides; the scalar expressions of _basis_bsplines) onto Lean terms over "
+    "R, Q, N (np.sqrt, np.sin, np.cos, np.pi, np.min -> a, np.ptp -> L, //, %, np.power); no arithmetic, no simplification",
+]
 EPS = 2.0 ** -52
 FAMILIES = ["bsplines", "legendre", "fourier", "wiener"]
+
+
+import os as _os
+
+import common as _common
+import c18_translate as _translator
+
+GEN_FILE = _os.path.join(_common.LEAN_DIR, "FDAModel", "Generated", "BasisFormulas.lean")
+TRANSLATOR_NOTE = None
+
+
+def translate():
+    """Regenerate Generated/BasisFormulas.lean from what the source says now.  A source whose shape the translator does not recognise
+    (a refactor) is NOT an alarm: the reference translation stored beside the translator is used (not what an earlier run left in
+    Generated/), a note is printed and the evidence says that for this run these formulas are tied to the source by the
+    correspondence only.  Only a successful translation can break the `*_src_eq_model` obligations."""
+    global TRANSLATOR_NOTE
+    path = _os.path.join(_common.REPO, *('FDApy', 'misc', 'basis.py'))
+    here = _os.path.dirname(_os.path.abspath(__file__))
+    try:
+        src = _translator.lean_source(path)
+        TRANSLATOR_NOTE = ("translator: formulas regenerated from the source and re-proved equal to the model (C18.wiener_src_eq_model, C18.fourier_src_eq_model, C18.legendre_src_eq_model, C18.bspline_scalars_src_eq_model, C18.tpower_src_eq_model)")
+    except OSError as e:
+        raise _common.InfraError(f"translator: cannot read {path}: {e}")
+    except (ValueError, SyntaxError, IndexError, AttributeError, KeyError, TypeError, StopIteration) as e:
+        TRANSLATOR_NOTE = f"translator: shape of the source not recognised, tie rests on the correspondence only ({e})"
+        print("note:", TRANSLATOR_NOTE)
+        src = open(_os.path.join(here, "c18_basisformulas_reference.lean")).read()
+    if not _os.path.exists(GEN_FILE) or open(GEN_FILE).read() != src:
+        with open(GEN_FILE, "w") as fh:
+            fh.write(src)
 
 
 # --------------------------------------------------------------------------
@@ -1056,5 +1092,5 @@ def classify(case, impl):
 
 
 def extra_coverage(cases, impls, models):
-    return dict(bspline_max_error_in_tolerance_units=round(_CAL["max_ratio"], 3),
+    return dict(translator=TRANSLATOR_NOTE, bspline_max_error_in_tolerance_units=round(_CAL["max_ratio"], 3),
                 bspline_tolerance="64·eps·(1+p·max|domain|/h)·max(1,Σ|terms|) (the unit above is the same expression without the 64)")
